@@ -255,7 +255,7 @@ fn c03_positions(quick: bool) -> Vec<Pos> {
     let mut v = adversarial_roots();
     v.extend(perft_roots().into_iter().map(|x| x.1).filter(|p| p.piece_count() <= 12));
     let fams = [f3(), fcastle(false), fep(false), fpromo(), fmate()];
-    let (stride, step) = if quick { (29, 23) } else { (3, 5) };
+    let (stride, step) = if quick { (29, 23) } else { (7, 11) };
     v.extend(collect_families(&fams, stride).into_iter().step_by(step));
     v
 }
@@ -314,7 +314,7 @@ pub fn run_c03(ctx: &Ctx) -> i32 {
             Pos::from_fen("4k3/8/8/8/3pP3/8/8/4K3 b - e3 0 1").unwrap(),
             Pos::from_fen("r3k3/8/8/3pP3/8/8/8/4K2R w Kq d6 0 1").unwrap(),
         ];
-        let (stride, step) = if quick { (101, 211) } else { (13, 41) };
+        let (stride, step) = if quick { (101, 211) } else { (37, 83) };
         v.extend(collect_families(&[fcastle(false)], stride).into_iter().step_by(step));
         v.extend(collect_families(&[fep(false)], stride).into_iter().step_by(step * 3));
         v
@@ -776,17 +776,34 @@ pub fn run_c17(ctx: &Ctx) -> i32 {
     let quick = ctx.quick();
     let tb = Tablebase::build(threads());
     let seeds = seeds(ctx);
-    let max_n: u16 = if quick { 1 } else { 3 };
     let mut roots: Vec<Pos> = Vec::new();
     for k in [QUEEN, ROOK] {
-        for (p, v) in tb.positions(k) {
-            if matches!(v, Val::Win(n) if n <= max_n) {
+        for (i, (p, v)) in tb.positions(k).enumerate() {
+            // all mates in 1; thorough adds every 12th mate in 3 (the solver for the
+            // repetition-aware distance costs 2*10^5 nodes per choice there)
+            if v == Val::Win(1) || (!quick && v == Val::Win(3) && i % 12 == 0) {
                 roots.push(p.mirror());
                 roots.push(p);
             }
         }
     }
-    let roots: Vec<Pos> = roots.into_iter().collect();
+    let mut roots: Vec<Pos> = roots.into_iter().collect();
+    // mates in 3 plies whose fastest first move is the recorded one: the alternative is
+    // slower (5 plies), which is where a stale table entry for the recorded position can
+    // make the repeating move look better. A strided slice in quick, denser in thorough.
+    let shallow = roots.len();
+    if quick {
+        let stride = 150;
+        for k in [QUEEN, ROOK] {
+            for (i, (p, _)) in tb.positions(k).filter(|(_, v)| *v == Val::Win(3)).enumerate() {
+                if i % stride == 0 {
+                    roots.push(if i % (2 * stride) == 0 { p.mirror() } else { p });
+                }
+            }
+        }
+    }
+    ctx.add("roots_win_in_3_slice", (roots.len() - shallow) as u64);
+    let root_index: std::collections::HashMap<Key, usize> = roots.iter().enumerate().map(|(i, p)| (p.key(), i)).collect();
     par_for(ctx, &roots, |p, l| {
         let legal = p.legal();
         // mate-preserving first moves per tablebase
@@ -803,7 +820,11 @@ pub fn run_c17(ctx: &Ctx) -> i32 {
                 let k = q.key();
                 k == rec_key || k == root_key
             };
-            let Some(n2) = mate_distance(p, if quick { 3 } else { 5 }, &drawn) else {
+            let deep_root = quick && root_index.get(&root_key).map(|&i| i >= shallow).unwrap_or(false);
+            if deep_root && !matches!(tb.probe(rec_pos), Some(Val::Loss(2))) {
+                continue; // in the slice only the fastest mating move is recorded
+            }
+            let Some(n2) = mate_distance(p, if quick && !deep_root { 3 } else { 5 }, &drawn) else {
                 l.inc("no_mate_left_within_horizon");
                 continue;
             };
@@ -879,7 +900,7 @@ pub fn run_c17(ctx: &Ctx) -> i32 {
         ctx.get("searches") + schedules,
         ctx.get("searches") + schedules,
         exh,
-        &format!("{}{}", "every KQK/KRK tablebase position (both colours) with mate in <= 1 ply (thorough 3) and at least two mate-preserving first moves x every choice of the recorded successor x depths n'..n'+2 (n' = shortest forced mate, <= 5 plies, in the game where entering the recorded position or the root again is a draw, by the exhaustive solver) x seeds; plus the root itself recorded twice", LOOM_RULE),
+        &format!("{}{}", "every KQK/KRK tablebase position (both colours) with mate in 1 ply, plus a strided slice of the mates in 3 plies (quick: every 150th with the fastest mating move recorded; thorough: every 12th with every choice), with at least two mate-preserving first moves; the recorded position enters the history either by the hook on a fresh memory or by really having been searched on the same memory before x every choice of the recorded successor x depths n'..n'+2 (n' = shortest forced mate, <= 5 plies, in the game where entering the recorded position or the root again is a draw, by the exhaustive solver) x seeds; plus the root itself recorded twice", LOOM_RULE),
         ASSUME,
     )
 }
